@@ -8,7 +8,9 @@ Every random choice derives from the `random.Random` passed in.
 from common import Scenario, Host, u
 
 
-def rand_scenario(rng, max_hosts=5, big=False):
+def rand_scenario(rng, max_hosts=5, big=False, like=None):
+    """like: an earlier scenario whose vector layout (subnet sizes, numbers of OS / services /
+    processes, address bounds) the new one must share"""
     # "rich" scenarios are nudged so that the attack can actually progress (deep state graphs);
     # the others keep hostile corner cases (nothing exploitable, everything blocked)
     rich = rng.random() < 0.75
@@ -18,6 +20,8 @@ def rand_scenario(rng, max_hosts=5, big=False):
         sizes = [rng.randint(1, 2 if not big else 4) for _ in range(nsub)]
         if sum(sizes) <= max_hosts:
             break
+    if like is not None:
+        sizes = list(like.subnets[1:])
     subnets = [1] + sizes
     n = len(subnets)
     topo = [[0] * n for _ in range(n)]
@@ -47,6 +51,8 @@ def rand_scenario(rng, max_hosts=5, big=False):
             if rng.random() < 0.5:
                 topo[i][i] = 0
     nos, nsvc, nproc = rng.randint(1, 2), rng.randint(1, 3), rng.randint(1, 2)
+    if like is not None:
+        nos, nsvc, nproc = len(like.os), len(like.services), len(like.processes)
     os_l = [f"os{i}" for i in range(nos)]
     svc_l = [f"s{i}" for i in range(nsvc)]
     proc_l = [f"p{i}" for i in range(nproc)]
@@ -119,7 +125,9 @@ def rand_scenario(rng, max_hosts=5, big=False):
          u.SUBNET_SCAN_COST: rng.choice([1, 0.5, 3]), u.PROCESS_SCAN_COST: rng.choice([1, 0.25]),
          u.FIREWALL: fw, u.HOSTS: H,
          u.STEP_LIMIT: rng.choice([None, None, 1, 2, 3, 1000])}
-    if rng.random() < 0.3:
+    if like is not None:
+        d[u.ADDRESS_SPACE_BOUNDS] = tuple(like.address_space_bounds)
+    elif rng.random() < 0.3:
         d[u.ADDRESS_SPACE_BOUNDS] = (n + rng.randint(0, 2), max(subnets) + rng.randint(0, 2))
     sc = Scenario(d, name="rnd")
     sc._shape = shape
